@@ -12,6 +12,7 @@
   counterexample shows the full statement false of the model (= known findings).
 -/
 import TypedpyModel.Lemmas.DefineWorld
+import TypedpyModel.Lemmas.DefineBridge
 namespace Typedpy.C14
 open Typedpy
 
@@ -256,11 +257,12 @@ theorem immutableField_subclass_rejected (fw : List FieldCls) (name b : String) 
 theorem abstract_not_instantiable (O : Oracles) (c : ClassDef) (kw : List (String × PyVal))
     (h : c.name = "AbstractStructure" ∨ "AbstractStructure" ∈ c.bases) :
     instantiate O c kw = .error .typeErr := by
-  have : (c.name == "AbstractStructure" || c.bases.contains "AbstractStructure") = true := by
+  have : c.isAbstract = true := by
+    unfold ClassDef.isAbstract
     rcases h with h | h
     · simp [h]
     · simp [h]
-  unfold instantiate
+  unfold instantiate instantiateOrd
   rw [if_pos this]
 
 theorem abstract_subclass_not_instantiable {O : Oracles} {w : World} {src : ClassSrc} {cd : ClassDef}
